@@ -1,0 +1,99 @@
+package yaml
+
+import (
+	"fmt"
+
+	"github.com/grafana/cog/internal/ast"
+)
+
+// validateType checks that a type written by hand in a configuration file is
+// complete: the definition announced by its kind is there, recursively.
+// Compiler passes and jennies rely on it.
+func validateType(def ast.Type) error {
+	missing := func() error {
+		return fmt.Errorf("type of kind '%s' is missing its '%s' definition", def.Kind, def.Kind)
+	}
+
+	switch def.Kind {
+	case ast.KindScalar:
+		if def.Scalar == nil {
+			return missing()
+		}
+	case ast.KindRef:
+		if def.Ref == nil {
+			return missing()
+		}
+	case ast.KindConstantRef:
+		if def.ConstantReference == nil {
+			return missing()
+		}
+	case ast.KindComposableSlot:
+		if def.ComposableSlot == nil {
+			return missing()
+		}
+	case ast.KindArray:
+		if def.Array == nil {
+			return missing()
+		}
+
+		return validateType(def.Array.ValueType)
+	case ast.KindMap:
+		if def.Map == nil {
+			return missing()
+		}
+
+		if err := validateType(def.Map.IndexType); err != nil {
+			return err
+		}
+
+		return validateType(def.Map.ValueType)
+	case ast.KindStruct:
+		if def.Struct == nil {
+			return missing()
+		}
+
+		for _, field := range def.Struct.Fields {
+			if err := validateType(field.Type); err != nil {
+				return fmt.Errorf("%s: %w", field.Name, err)
+			}
+		}
+	case ast.KindEnum:
+		if def.Enum == nil {
+			return missing()
+		}
+
+		if len(def.Enum.Values) == 0 {
+			return fmt.Errorf("enum with no values")
+		}
+
+		for _, member := range def.Enum.Values {
+			if member.Type.Kind != ast.KindScalar || member.Type.Scalar == nil {
+				return fmt.Errorf("enum member '%s' is not a scalar", member.Name)
+			}
+		}
+	case ast.KindDisjunction:
+		if def.Disjunction == nil {
+			return missing()
+		}
+
+		for _, branch := range def.Disjunction.Branches {
+			if err := validateType(branch); err != nil {
+				return err
+			}
+		}
+	case ast.KindIntersection:
+		if def.Intersection == nil {
+			return missing()
+		}
+
+		for _, branch := range def.Intersection.Branches {
+			if err := validateType(branch); err != nil {
+				return err
+			}
+		}
+	default:
+		return fmt.Errorf("unknown type kind '%s'", def.Kind)
+	}
+
+	return nil
+}
